@@ -115,3 +115,28 @@ def decode_rows(tabs, labels, nrows, big_endian=False):
     if big_endian:
         labs = labs[::-1]
     return value_rows(tabs, [(l, i) for i, l in enumerate(labs)], nrows)
+
+
+def fresh_generator_check(acc, name, make):
+    """generate_* must hand out a fresh, correct circuit on every call: build one, edit it in place
+    (the caller owns it), build again and compare the second one with the first one's original shape."""
+    from cirbo.core.circuit import gate as G
+
+    acc.transitions += 2
+    case = {'fn': name, 'scenario': 'generate, edit the result, generate again'}
+    try:
+        c1 = make()
+        n1 = refmodel.abstract(c1)
+        t1 = n1.out_tables()
+        shape1 = (len(n1.inputs), len(n1.outputs), len(n1.gates))
+        # edit the first result the way a caller might
+        c1.emplace_gate('zz_edit', G.NOT, (list(c1.gates)[0],))
+        c1.set_outputs(['zz_edit'])
+        c1.add_inputs(['zz_new_input'])
+        c2 = make()
+        n2 = refmodel.abstract(c2)
+    except Exception as e:  # noqa: BLE001
+        acc.violation(f'{name}/raises-{type(e).__name__}', case, repr(e))
+        return
+    if c2 is c1 or (len(n2.inputs), len(n2.outputs), len(n2.gates)) != shape1 or n2.out_tables() != t1:
+        acc.violation(f'{name}/second-call-is-not-a-fresh-correct-circuit', case, f'first {shape1}, second {(len(n2.inputs), len(n2.outputs), len(n2.gates))}')
